@@ -1991,31 +1991,38 @@ impl ConfigState {
             }
         }
 
-        for ((cluster_id, backend_id), res) in diff_map(
-            self.backends.iter().flat_map(|(cluster_id, v)| {
-                v.iter()
-                    .map(move |backend| ((cluster_id, &backend.backend_id), backend))
-            }),
-            other.backends.iter().flat_map(|(cluster_id, v)| {
-                v.iter()
-                    .map(move |backend| ((cluster_id, &backend.backend_id), backend))
-            }),
+        // a backend is identified by (cluster_id, backend_id, address): the same
+        // backend_id may be registered at several addresses
+        let my_backends: BTreeMap<(&ClusterId, &String, SocketAddr), &Backend> = self
+            .backends
+            .iter()
+            .flat_map(|(cluster_id, v)| {
+                v.iter().map(move |backend| {
+                    ((cluster_id, &backend.backend_id, backend.address), backend)
+                })
+            })
+            .collect();
+        let their_backends: BTreeMap<(&ClusterId, &String, SocketAddr), &Backend> = other
+            .backends
+            .iter()
+            .flat_map(|(cluster_id, v)| {
+                v.iter().map(move |backend| {
+                    ((cluster_id, &backend.backend_id, backend.address), backend)
+                })
+            })
+            .collect();
+
+        for (key, res) in diff_map(
+            my_backends.iter().map(|(k, v)| (*k, *v)),
+            their_backends.iter().map(|(k, v)| (*k, *v)),
         ) {
             match res {
                 DiffResult::Added => {
-                    let backend = other
-                        .backends
-                        .get(cluster_id)
-                        .and_then(|v| v.iter().find(|b| &b.backend_id == backend_id))
-                        .unwrap();
+                    let backend = their_backends[&key];
                     v.push(RequestType::AddBackend(backend.clone().to_add_backend()).into());
                 }
                 DiffResult::Removed => {
-                    let backend = self
-                        .backends
-                        .get(cluster_id)
-                        .and_then(|v| v.iter().find(|b| &b.backend_id == backend_id))
-                        .unwrap();
+                    let backend = my_backends[&key];
 
                     v.push(
                         RequestType::RemoveBackend(RemoveBackend {
@@ -2027,11 +2034,7 @@ impl ConfigState {
                     );
                 }
                 DiffResult::Changed => {
-                    let backend = self
-                        .backends
-                        .get(cluster_id)
-                        .and_then(|v| v.iter().find(|b| &b.backend_id == backend_id))
-                        .unwrap();
+                    let backend = my_backends[&key];
 
                     v.push(
                         RequestType::RemoveBackend(RemoveBackend {
@@ -2042,11 +2045,7 @@ impl ConfigState {
                         .into(),
                     );
 
-                    let backend = other
-                        .backends
-                        .get(cluster_id)
-                        .and_then(|v| v.iter().find(|b| &b.backend_id == backend_id))
-                        .unwrap();
+                    let backend = their_backends[&key];
                     v.push(RequestType::AddBackend(backend.clone().to_add_backend()).into());
                 }
             }
